@@ -52,13 +52,22 @@ func register(s *Suite) { suites[s.Name] = s }
 func main() {
 	log.SetOutput(io.Discard)
 	log.SetLevel(log.PanicLevel)
-	if len(os.Args) < 2 || (len(os.Args) < 3 && os.Args[1] != "e2eworker" && os.Args[1] != "list") {
+	if len(os.Args) < 2 || (len(os.Args) < 3 && os.Args[1] != "e2eworker" && os.Args[1] != "mworker" && os.Args[1] != "list") {
 		fmt.Fprintln(os.Stderr, "usage: corr gen|exec|list ...")
 		os.Exit(2)
 	}
 	switch os.Args[1] {
 	case "e2eworker":
 		e2eWorkerMain()
+		return
+	case "mworker":
+		mWorkerMain()
+		return
+	case "c11worker": // C11 deterministic schedule replay, one schedule per process (c11_conc.go)
+		c11WorkerMain()
+		return
+	case "c11stress": // C11 exploration: concurrent stress run (c11_stress.go)
+		c11StressMain()
 		return
 	case "list":
 		names := []string{}
